@@ -147,7 +147,7 @@ fn gen_v(depth: u32) -> V {
         }
         19 => {
             // arrays: one element type
-            let k = choice(4);
+            let k = choice(18);
             let n = pick(&[0u32, 1, 3, 40]);
             V::Array(
                 (0..n)
@@ -155,7 +155,21 @@ fn gen_v(depth: u32) -> V {
                         0 => V::Uint(1000 + i),
                         1 => V::Sym(format!("sym{}", i)),
                         2 => V::Ulong(1 << 33 | i as u64),
-                        _ => V::Bool(i % 2 == 0),
+                        3 => V::Bool(i % 2 == 0),
+                        4 => V::Uuid([i as u8; 16]),
+                        5 => V::Dec32([i as u8; 4]),
+                        6 => V::Dec64([i as u8; 8]),
+                        7 => V::Dec128([i as u8; 16]),
+                        8 => V::Timestamp(1_600_000_000_000 + i as i64),
+                        9 => V::Char(0x41 + i),
+                        10 => V::Float(0x3f80_0000 + i),
+                        11 => V::Double(0x3ff0_0000_0000_0000 + i as u64),
+                        12 => V::Ubyte(i as u8),
+                        13 => V::Short(-(i as i16)),
+                        14 => V::Long(-(i as i64) - (1 << 40)),
+                        15 => V::Str(format!("é{}", i)),
+                        16 => V::Bin(vec![i as u8; (i % 5) as usize]),
+                        _ => V::Int(-(i as i32) - 70_000),
                     })
                     .collect(),
             )
@@ -173,6 +187,42 @@ pub enum Kind {
     MessageBytes,
     /// an outcome / delivery state with every form of descriptor and of (empty) field list
     OutcomeForms,
+    /// an array of one element type, every type in turn (fixed width 0..16, variable, compound)
+    TypedArray,
+}
+
+fn gen_typed_array() -> V {
+    let k = choice(23);
+    let n = pick(&[1u32, 2, 3, 40]);
+    V::Array(
+        (0..n)
+            .map(|i| match k {
+                0 => V::Uint(1000 + i),
+                1 => V::Sym(format!("sym{}", i)),
+                2 => V::Ulong(1 << 33 | i as u64),
+                3 => V::Bool(i % 2 == 0),
+                4 => V::Uuid([i as u8; 16]),
+                5 => V::Dec32([i as u8; 4]),
+                6 => V::Dec64([i as u8; 8]),
+                7 => V::Dec128([i as u8; 16]),
+                8 => V::Timestamp(1_600_000_000_000 + i as i64),
+                9 => V::Char(0x41 + i),
+                10 => V::Float(0x3f80_0000 + i),
+                11 => V::Double(0x3ff0_0000_0000_0000 + i as u64),
+                12 => V::Ubyte(i as u8),
+                13 => V::Short(-(i as i16)),
+                14 => V::Long(-(i as i64) - (1 << 40)),
+                15 => V::Str(format!("é{}", i)),
+                16 => V::Bin(vec![i as u8; (i % 5) as usize]),
+                17 => V::Int(-(i as i32) - 70_000),
+                18 => V::Null,
+                19 => V::List(vec![V::Uint(300 + i), V::Str(format!("e{}", i))]),
+                20 => V::Map(vec![(V::Str("k".into()), V::Uint(1000 + i))]),
+                21 => V::Array(vec![V::Uuid([i as u8; 16]), V::Uuid([7; 16])]),
+                _ => V::Ushort(i as u16),
+            })
+            .collect(),
+    )
 }
 
 fn gen_encoding(kind: Kind) -> Vec<u8> {
@@ -203,6 +253,16 @@ fn gen_encoding(kind: Kind) -> Vec<u8> {
             refcodec::encode(&v)
         }
         Kind::MessageBytes => msgs::encode(&msgs::gen_message(1 + choice(1000) as u64, 120, 1)),
+        Kind::TypedArray => {
+            let a = gen_typed_array();
+            // on its own, or as a field among others
+            let v = match choice(3) {
+                0 => a,
+                1 => V::List(vec![V::Uint(1), a, V::Str("after".into())]),
+                _ => V::Map(vec![(V::Sym("k".into()), a), (V::Sym("l".into()), V::Uint(2))]),
+            };
+            refcodec::encode(&v)
+        }
         Kind::OutcomeForms => {
             // accepted 0x24, released 0x26, rejected 0x25, modified 0x27, received 0x23
             let (code, sym, fields): (u8, &str, Vec<u8>) = match choice(4) {
@@ -678,14 +738,27 @@ pub async fn run_c04_short_strings() {
 // C20
 
 /// A valid encoding followed by arbitrary trailing bytes, through both readers, in chunks of every size
+thread_local! {
+    static ARRAYS_ONLY: std::cell::Cell<bool> = std::cell::Cell::new(false);
+}
+
+/// The same comparison for arrays of every element type, one type per run; the chunk size is
+/// seeded instead of enumerated
+pub async fn run_c20_arrays() {
+    ARRAYS_ONLY.with(|f| f.set(true));
+    run_c20_trailing().await;
+    ARRAYS_ONLY.with(|f| f.set(false));
+}
+
 pub async fn run_c20_trailing() {
-    let kind = pick(&[Kind::AnyValue, Kind::AnyValue, Kind::PerformativeBody, Kind::SaslBody, Kind::OutcomeForms, Kind::OutcomeForms]);
+    let arrays_only = ARRAYS_ONLY.with(|f| f.get());
+    let kind = if arrays_only { Kind::TypedArray } else { pick(&[Kind::AnyValue, Kind::AnyValue, Kind::PerformativeBody, Kind::SaslBody, Kind::OutcomeForms, Kind::OutcomeForms]) };
     let enc = gen_encoding(kind);
     let trailing: Vec<u8> = (0..choice(40)).map(|_| choice(256) as u8).collect();
     let mut bytes = enc.clone();
     bytes.extend_from_slice(&trailing);
     // the run's case is the chunk size of the stream (0 = seeded per read)
-    let case = sim::case() as u32;
+    let case = if arrays_only { pick(&[0u32, 0, 1, 2, 3, 7, 8, 16, 17, 64]) } else { sim::case() as u32 };
     let chunk = if case == 0 { u32::MAX } else { case };
     sim::set_config(format!("variant=trailing kind={:?} value-len={} trailing={} chunk={} value={}", kind, enc.len(), trailing.len(), chunk, refcodec::hex(&enc[..enc.len().min(64)])));
     sim::evh_bytes(0xC20, &bytes);
@@ -761,6 +834,11 @@ pub async fn run_c20_trailing() {
                     (Err(_), Err(_)) => {}
                 }
             }};
+        }
+        // the lazy value through the serde entry points (its own from_reader follows below)
+        typed!(LazyValue, "LazyValue (serde entry points)");
+        if sim::has_violation() {
+            return;
         }
         match kind {
             Kind::PerformativeBody => typed!(Performative, "Performative"),
@@ -981,6 +1059,19 @@ pub async fn run_c20_plain_typed() {
 
 /// One generated value per run (no chunk enumeration): size calculator vs encoder and value tree vs
 /// bytes, for untyped values with arrays of variable-width elements and for typed arrays
+/// DESIGN section 5.2: the value-tree deserializer does not speak the protocol by which `Value`'s
+/// own Deserialize tells the AMQP types apart that share a serde data-model type, and has no case
+/// for compound values under `deserialize_any`'s enum route. The signature is attached when the
+/// value at hand is (or is made of) one of those; a value of the other types must come back equal.
+fn value_tree_sig(v: &Value) -> &'static str {
+    match v {
+        Value::Decimal32(_) | Value::Decimal64(_) | Value::Decimal128(_) | Value::Timestamp(_) | Value::Uuid(_) | Value::Symbol(_) | Value::List(_) | Value::Array(_) | Value::Map(_) | Value::Described(_) => {
+            "from-value-of-untyped-value"
+        }
+        _ => "",
+    }
+}
+
 pub async fn run_c20_sizes() {
     use serde_amqp::primitives::{Array, Symbol};
     sim::mark_nontrivial();
@@ -1001,6 +1092,14 @@ pub async fn run_c20_sizes() {
             Ok(t) if t == v => {}
             other => {
                 sim::violation("value-tree", format!("to_value({:?}) gives {:?}", v, other));
+                return;
+            }
+        }
+        // ... and back out of the tree
+        match serde_amqp::from_value::<Value>(v.clone()) {
+            Ok(t) if t == v => {}
+            other => {
+                sim::violation_sig("value-tree-back", value_tree_sig(&v), format!("from_value::<Value>({:?}) gives {:?}", v, other));
                 return;
             }
         }
@@ -1056,5 +1155,44 @@ pub async fn run_c20_sizes() {
     sized!(bins, "Array<Binary>");
     sized!(lists, "Array<Vec<u32>>");
     sized!(open, "Open with capability arrays");
+    // the 8-bit / 32-bit boundary of every variable-width and compound encoding: a body whose
+    // length sweeps across 255 (the size field of the compound forms counts the count field too,
+    // so each form has its own boundary), alone and nested
+    {
+        use std::collections::BTreeMap;
+        let l = 235 + choice(40) as usize; // 235..=274
+        let s = "s".repeat(l);
+        let b = serde_amqp::primitives::Binary::from(vec![7u8; l]);
+        let sym = Symbol::from(s.as_str());
+        sized!(s, "String at the width boundary");
+        sized!(b, "Binary at the width boundary");
+        sized!(sym, "Symbol at the width boundary");
+        let mut m: BTreeMap<String, String> = BTreeMap::new();
+        m.insert("k".into(), s.clone());
+        sized!(m, "Map<String,String> at the width boundary");
+        let mut m2: BTreeMap<String, serde_amqp::primitives::Binary> = BTreeMap::new();
+        m2.insert("k".into(), b.clone());
+        m2.insert("l".into(), serde_amqp::primitives::Binary::from(vec![1u8; choice(4) as usize]));
+        sized!(m2, "Map<String,Binary> at the width boundary");
+        let lst: Vec<String> = vec![s.clone()];
+        sized!(lst, "Vec<String> at the width boundary");
+        let bytes_list: Vec<u8> = vec![200u8; l / 2 + choice(12) as usize];
+        sized!(bytes_list, "Vec<u8> at the width boundary");
+        let arr8: Array<u8> = Array::from(vec![9u8; l]);
+        sized!(arr8, "Array<u8> at the width boundary");
+        let nested = vec![m.clone()];
+        sized!(nested, "Vec<Map> at the width boundary");
+        let tup = (1u8, m.clone(), lst.clone());
+        sized!(tup, "tuple holding a map and a list at the width boundary");
+        // and each of them comes back from its own encoding
+        match to_vec(&m).map_err(|e| format!("{:?}", e)).and_then(|x| from_slice::<BTreeMap<String, String>>(&x).map_err(|e| format!("{:?}", e))) {
+            Ok(back) if back == m => {}
+            other => {
+                sim::violation("round-trip", format!("a map with a {}-byte value came back from its own encoding as {:?}", l, other.map(|m| m.len())));
+                return;
+            }
+        }
+        sim::probe("width-boundary-checked");
+    }
     sim::probe("sizes-checked");
 }
